@@ -18,6 +18,95 @@ def _build(run, cm):
     return exe
 
 
+def _build_runners(run, cm):
+    """standalone runner (fuzz/C12_run.cpp) in two unrelated builds: gcc -O2 and clang -O0, no sanitizers"""
+    exes = {}
+    for v in ('fast', 'plain0'):
+        libobjs = cm.build_lib(run.bdir, v)
+        exes[v] = cm.build_harness(run.bdir, run.prop, v, libobjs, src=run.spec['runner_src'], tag='run')
+    return exes
+
+
+def _run_cpu_bounded(cmd, env, cpu_s, cwd=None):
+    """run cmd until it exits or has used cpu_s seconds of CPU time (from /proc; wall clock only as a 20x backstop).
+    Returns (finished, returncode, stdout, stderr)."""
+    import tempfile
+    with tempfile.TemporaryFile('w+') as so, tempfile.TemporaryFile('w+') as se:
+        p = subprocess.Popen(cmd, stdout=so, stderr=se, env=env, cwd=cwd)
+        tick = os.sysconf('SC_CLK_TCK'); t0 = time.time(); fin = True
+        while True:
+            try:
+                p.wait(timeout=0.5); break
+            except subprocess.TimeoutExpired:
+                pass
+            used = 0.0
+            try:
+                f = open(f'/proc/{p.pid}/stat').read().rsplit(')', 1)[1].split()
+                used = (int(f[11]) + int(f[12]) + int(f[13]) + int(f[14])) / tick
+            except Exception:
+                pass
+            if used >= cpu_s or time.time() - t0 > cpu_s * 20:
+                p.kill(); p.wait(); fin = False; break
+        so.seek(0); se.seek(0)
+        return fin, p.returncode, so.read(), se.read()[-4000:]
+
+
+def _cross_checks(run, runners, files, jobs):
+    """deterministic checks over stored programs: (a) valgrind memcheck on the gcc build (uninitialised-value use and invalid accesses that
+    ASan/UBSan do not see), (b) equal observation digests in the gcc -O2 and the clang -O0 build. Returns [(file, message)].
+    Every sub-process is bounded in CPU time: a program that normally runs for microseconds and does not finish is reported, not waited for."""
+    from concurrent.futures import ThreadPoolExecutor
+    bad = []
+    files = sorted(files)
+    env = dict(run.env); env.pop('VERIF_FRAG', None); env['VERIF_KNOWN'] = ''
+    nsh = max(1, min(jobs, len(files) // 20 + 1))
+    shards = [files[i::nsh] for i in range(nsh)]
+
+    def digests(exe, fl, cpu):
+        fin, rc, out, err = _run_cpu_bounded([exe] + fl, env, cpu)
+        d = {}
+        for ln in out.splitlines():
+            a = ln.split()
+            if len(a) == 2: d[a[0]] = a[1]
+        return fin, rc, d, err
+
+    def vg(fl, cpu):
+        fin, rc, out, err = _run_cpu_bounded(['valgrind', '-q', '--error-exitcode=9', '--track-origins=no', runners['fast']] + fl, env, cpu)
+        return fin, rc, err
+
+    def one(fl):
+        res = []
+        if not fl: return res
+        fin1, rc1, d1, e1 = digests(runners['fast'], fl, 20)
+        fin2, rc2, d2, e2 = digests(runners['plain0'], fl, 40)
+        for f in fl:
+            b = os.path.basename(f)
+            if b not in d1 or b not in d2:
+                if not (fin1 and fin2):
+                    finx, _, _, _ = digests(runners['fast'], [f], 15)
+                    res.append((f, 'an API call does not return: the program (normally microseconds) was stopped after 15 s of CPU time in a plain build'
+                                if not finx else 'a group of stored programs did not finish within its CPU budget, this one does alone (load?): inconclusive'))
+                else:
+                    res.append((f, f"runner died on this program (exit {rc1}/{rc2}): {(e1 or e2).strip()[-200:]}"))
+                return res
+            if d1[b] != d2[b]:
+                res.append((f, f"observation digest differs between two builds of the same sources (gcc -O2: {d1[b]}, clang -O0: {d2[b]}): results depend on undefined or uninitialised state"))
+        fin, rc, err = vg(fl, 200)
+        if fin and rc != 0:
+            for f in fl:   # name the first program that fails alone
+                finf, rcf, errf = vg([f], 120)
+                if finf and rcf != 0:
+                    first = [l for l in errf.splitlines() if l.startswith('==')]
+                    res.append((f, 'valgrind memcheck: ' + ' | '.join(l.split('== ', 1)[-1] for l in first[:4])[:400])); break
+            else:
+                res.append((fl[0], 'valgrind memcheck reports an error for a group of programs but for none of them alone: ' + err.strip()[:300]))
+        return res
+
+    with ThreadPoolExecutor(nsh) as ex:
+        for r in ex.map(one, shards): bad += r
+    return [(f, m) for f, m in bad if 'inconclusive' not in m]
+
+
 def _run_file(run, exe, path, known='', trace=False, timeout=120):
     env = dict(run.env)
     env['VERIF_KNOWN'] = known
@@ -70,11 +159,15 @@ def run(run, replay, cm):
     spec = run.spec
     tcfg = spec[run.tier]
     exe = _build(run, cm)
+    runners = _build_runners(run, cm) if spec.get('runner_src') else None
     if replay:
         rc, out = _run_file(run, exe, os.path.abspath(replay), trace=True)
         print(f"[fuzz] rc={rc} {_reason(out) if rc else 'pass'}")
         for ln in out.splitlines():
             if ln.startswith('TRACE') or ln.startswith('program so far'): print(ln[:2000])
+        if not rc and runners:
+            for f, msg in _cross_checks(run, runners, [os.path.abspath(replay)], 1):
+                print('[cross-build / valgrind]', msg); rc = 1
         if rc:
             print(f"VIOLATION property={run.prop} replay={os.path.abspath(replay)}")
         return 1 if rc else 0
@@ -104,10 +197,21 @@ def run(run, replay, cm):
         rc, out = _run_file(run, exe, p, known=kstr)
         if rc:
             run.violations.append((p, 'regression input fails: ' + _reason(out)))
+    # 2b. deterministic cross-checks over every stored program (seed corpus + regression inputs)
+    seeds = os.path.join(VERIF, 'corpus', run.prop, 'seeds')
+    ncross = 0
+    if runners:
+        stored = [p for p in regress if p not in kreplays] + sorted(glob.glob(os.path.join(seeds, '*')))
+        ncross = len(stored)
+        seenmsg = set()
+        for f, msg in _cross_checks(run, runners, stored, run.jobs):
+            key = re.sub(r'[0-9a-f]{8,}|\d+', '#', msg)[:120]
+            if key in seenmsg: continue
+            seenmsg.add(key)
+            run.violations.append((_save_replay(run, f), msg))
     # 3. campaign
     work = os.path.join(run.bdir, 'work'); os.makedirs(work)
     outcorp = os.path.join(work, 'corpus'); os.makedirs(outcorp)
-    seeds = os.path.join(VERIF, 'corpus', run.prop, 'seeds')
     fragbase = os.path.join(work, 'frag')
     scale = float(os.environ.get('VERIF_SCALE', '1'))
     nw = max(1, run.jobs)
@@ -216,7 +320,7 @@ def run(run, replay, cm):
             'distinct_behaviours_fn_rc_argclass': len(beh), 'functions_reached': len(fnrc),
             'calls_with_out_of_domain_scalar_judged_by_table': tot['table_hits'], 'cells_checked_by_closure_clause': tot['closure_cells'],
             'function_x_return_code': table, 'libfuzzer_edge_coverage': cov, 'libfuzzer_features': ft,
-            'seed_corpus_files': len(glob.glob(os.path.join(seeds, '*'))), 'regression_inputs_replayed': ncorp, 'workers': nw, 'runs_per_worker': runs,
+            'seed_corpus_files': len(glob.glob(os.path.join(seeds, '*'))), 'stored_programs_checked_under_valgrind_and_across_two_builds': ncross, 'regression_inputs_replayed': ncorp, 'workers': nw, 'runs_per_worker': runs,
             'excluded_known': excl, 'known_findings': run.known_lines, 'notes': run.notes, 'exhaustive': False,
         },
         'assumptions': spec.get('assumptions', []), 'wall_s': round(time.time() - run.t0, 2), 'violations': len(run.violations),
